@@ -403,7 +403,8 @@ class ExprMixin:
         if isinstance(a, (VRec, VRef)):
             name = {ast.Lt: '__lt__', ast.LtE: '__le__', ast.Gt: '__gt__', ast.GtE: '__ge__'}[type(op)]
             cls = a.cls
-            if cls and self.repo.lookup_method(cls, name) is None and isinstance(b, (VRec, VRef)):
+            if cls and self.repo.lookup_method(cls, name) is None and isinstance(b, (VRec, VRef)) and \
+                    (isinstance(a, VRec) or self._mro_contract(cls, name) is None):
                 # reflected operation
                 rname = {ast.Lt: '__gt__', ast.LtE: '__ge__', ast.Gt: '__lt__', ast.GtE: '__le__'}[type(op)]
                 r = self.call_method(b, rname, [a], {}, fr, node)
